@@ -15,6 +15,7 @@
 #include "hc.h"
 
 static int tok;
+static int nofail;
 static int has_map_base;        /* a Table / Tree somewhere below: get() takes keys there, not positions */
 static var P0, P1, P2, P3, P4, P5, F0, F1, F2;           /* predicate / map Function objects */
 static var pred_even(var x) { return c_int(x) % 2 == 0 ? x : NULL; }
@@ -152,6 +153,7 @@ int main(int argc, char** argv) {
   while (hc_next(f)) {
     alarm(30);
     if (hc_is(0, "reset")) { cur_exec++; ev_begin("reset"); ev_end(); continue; }
+    if (hc_is(0, "nofail")) { nofail = 1; continue; }        /* in-contract observations only (C18: unchecked builds) */
     if (!hc_is(0, "view")) { fprintf(stderr, "unknown op %s\n", hc_w[0]); return 9; }
     ev_begin("view");
     ev_key("expr");
@@ -196,7 +198,7 @@ int main(int argc, char** argv) {
        exception (never answered with an element from outside the view) */
     ev_key("oob"); ev_s("[");
     int zip0 = 0; for (int w = 1; w + 1 < hc_nw; w++) if (hc_is(w, "Z") && hc_is(w + 1, "0")) zip0 = 1;   /* a Zip of nothing has no inputs that could refuse a position */
-    if (gotget && !zip0) {
+    if (gotget && !zip0 && !nofail) {
       long long cand[6] = { L, L + 1, 1000000, -L - 1, -L - 2, -1000000 };
       int nc = (type_of(v) == Zip || type_of(v) == Map) ? 3 : 6;        /* negative positions only where the view defines them */
       for (int i = 0; i < nc; i++) {
